@@ -254,26 +254,61 @@ def acc_writer(p, res):
                     res.bad(F('ACC-WRITER', f, n, src_of(n), 'the output buffer may only grow in OutputStream._push (which also advances offset and column)'))
                 else:
                     res.ok('%s: %s' % (f.short, src_of(n)))
-    # _push: appends its parameter and advances offset and column by its length
-    push_ = p.func('output_stream.OutputStream._push')
+    # ---- the methods themselves, decided on their symbolic path summaries
+    from .. import sympath
+    from ..linear import linear, show
+    from ..shape import strparts
+
+    def paths_of(name, **kw):
+        f = p.func('output_stream.OutputStream.' + name)
+        try:
+            return f, sympath.feasible(sympath.summaries(p, f, inline=False, **kw))
+        except sympath.Unsupported as e:
+            res.undecided('OutputStream.%s' % name, str(e))
+            return f, []
+
+    def evs(q):
+        """[(kind, resolved node)]: 'call' / 'store' events in execution order (markers skipped)"""
+        out = []
+        for sym, n, _ in q.events:
+            if sym.startswith('_c'):
+                out.append(('call', q.resolve(n)))
+            elif sym == '=':
+                out.append(('store', q.resolve(n)))
+            elif sym.startswith(('_iter', '_stable', '_unstable', '_loop', '_broke')):
+                out.append((sym.rstrip('0123456789') if sym.startswith('_loop') else sym, n))
+        return out
+
+    # _push: appends its parameter and advances offset and column by its length, nothing else
+    push_, pp = paths_of('_push')
     text = push_.params[1]
-    from .num import inline
-    app = [n for n in push_.body_nodes() if isinstance(n, ast.Call) and src_of(n.func) == 'self._value.append']
-    if len(app) == 1 and src_of(app[0].args[0]) == text:
-        res.ok('_push appends its argument unchanged')
-    else:
-        res.bad(F('ACC-WRITER', push_, push_.node, 'self._value.append(..)', '_push must append exactly the text it was given'))
-    for fld in ('offset', 'column'):
-        aug = [n for n in push_.body_nodes() if isinstance(n, ast.AugAssign) and src_of(n.target) == 'self.' + fld]
-        okk = len(aug) == 1 and isinstance(aug[0].op, ast.Add) and src_of(inline(p, push_, aug[0].value)) == 'len(%s)' % text
-        if okk:
-            res.ok('_push: self.%s += len(%s)' % (fld, text))
+    if len(pp) == 1:
+        E = evs(pp[0])
+        apps = [n for k, n in E if k == 'call' and src_of(n.func) == 'self._value.append']
+        st = {src_of(n.targets[0]): n.value for k, n in E if k == 'store'}
+        others = [src_of(n) for k, n in E if k == 'call' and src_of(n.func) != 'self._value.append']
+        if len(apps) == 1 and src_of(apps[0].args[0]) == text:
+            res.ok('_push appends its argument unchanged')
+        elif len(apps) == 1:
+            res.bad(F('ACC-WRITER', push_, push_.node, src_of(apps[0]), '_push must append exactly the text it was given'))
         else:
-            res.bad(F('ACC-WRITER', push_, aug[0] if aug else push_.node, 'self.%s += ..' % fld, '%s must advance by the length of the appended text' % fld))
-    if any(isinstance(n, (ast.If, ast.Return, ast.For, ast.While)) for n in push_.body_nodes()):
-        res.bad(F('ACC-WRITER', push_, push_.node, 'control flow in _push', '_push must be straight-line: append, offset, column'))
-    else:
-        res.ok('_push is straight-line')
+            res.bad(F('ACC-WRITER', push_, push_.node, 'self._value.append(..) x%d' % len(apps), '_push must append the text exactly once'))
+        for fld in ('offset', 'column'):
+            v = st.get('self.' + fld)
+            lin = linear(v) if v is not None else None
+            if lin == {'self.' + fld: 1, 'len(%s)' % text: 1}:
+                res.ok('_push: self.%s advances by len(%s)' % (fld, text))
+            elif v is None:
+                res.bad(F('ACC-WRITER', push_, push_.node, 'self.%s' % fld, '%s is not advanced by _push: positions reported to the callbacks fall behind the text' % fld))
+            else:
+                res.bad(F('ACC-WRITER', push_, push_.node, 'self.%s = %s' % (fld, src_of(v)), '%s must advance by exactly the length of the appended text' % fld))
+        extra = set(st) - {'self.offset', 'self.column'}
+        if extra or others:
+            res.bad(F('ACC-WRITER', push_, push_.node, ' ; '.join(sorted(extra) + others), '_push must do nothing but append and advance offset and column'))
+        else:
+            res.ok('_push does nothing else')
+    elif pp:
+        res.bad(F('ACC-WRITER', push_, push_.node, '%d paths through _push' % len(pp), '_push must be unconditional: append, offset, column'))
     # offset/column are advanced nowhere else; line only in push_newline
     for m in osc.methods.values():
         for n in m.body_nodes():
@@ -284,72 +319,188 @@ def acc_writer(p, res):
                         if m.name == 'push_newline' and s in ('self.line', 'self.column'):
                             continue
                         res.bad(F('ACC-WRITER', m, n, src_of(n), '%s may only change in _push%s' % (s, ' / push_newline' if s != 'self.offset' else '')))
-    # push_newline: newline text goes through push, then line += 1 and column = len(base_indent)
-    pn = p.func('output_stream.OutputStream.push_newline')
-    body = [src_of(s) for s in pn.node.body if not (isinstance(s, ast.Expr) and isinstance(s.value, ast.Constant))]
-    want_order = ["self.push('%s%s' % (newline, base_indent))", 'self.line += 1', 'self.column = len(base_indent)']
-    ix = [body.index(w) if w in body else -1 for w in want_order]
-    if -1 not in ix and ix == sorted(ix):
-        res.ok('push_newline: push(newline+baseIndent); line += 1; column = len(baseIndent)')
-    else:
-        res.bad(F('ACC-WRITER', pn, pn.node, ' ; '.join(body), 'push_newline must emit newline+baseIndent through push(), then count the line and reset the column to len(baseIndent)'))
-    for want, key in (("base_indent = self.options.get('output.baseIndent')", 'output.baseIndent'), ("newline = self.options.get('output.newline')", 'output.newline')):
-        if want in body:
-            res.ok(want)
+    # push_newline: newline text goes through push, then line += 1 and column = len(base_indent); indentation by the level
+    pn, pnp = paths_of('push_newline')
+    ind = pn.params[1] if len(pn.params) > 1 else 'indent'
+    NL, BI = "self.options.get('output.newline')", "self.options.get('output.baseIndent')"
+    n_ok = 0
+    for q in pnp:
+        E = evs(q)
+        kinds = [(k, src_of(n.func) if k == 'call' else src_of(n.targets[0])) for k, n in E]
+        want = [('call', 'self.push'), ('store', 'self.line'), ('store', 'self.column')]
+        truth = q.rconds().get(ind)
+        where = ['path: ' + q.cond_str()]
+        if kinds[:3] != want:
+            if sorted(kinds[:3]) == sorted(want):
+                res.bad(F('ACC-WRITER', pn, pn.node, ' ; '.join(src_of(n) for _, n in E[:3]), 'push_newline must emit newline+baseIndent through push() first and only then count the line and reset the column (push advances the column)', details=where))
+            elif ('call', 'self._push') in kinds or ('call', 'self._value.append') in kinds:
+                res.bad(F('ACC-WRITER', pn, pn.node, ' ; '.join(src_of(n) for _, n in E[:3]), 'the newline must go through push() (output.text callback and bookkeeping)', details=where))
+            else:
+                res.undecided('push_newline: %s' % ' ; '.join(src_of(n) for _, n in E), 'push(newline + baseIndent); line += 1; column = len(baseIndent)')
+            continue
+        parts = strparts(E[0][1].args[0]) if E[0][1].args else None
+        line_v, col_v = E[1][1].value, E[2][1].value
+        if parts != [('x', NL), ('x', BI)]:
+            if parts is not None and all(isinstance(x, tuple) for x in parts) and sorted(x[1] for x in parts) == sorted([NL, BI]):
+                res.bad(F('ACC-WRITER', pn, pn.node, src_of(E[0][1]), 'the base indent goes after the newline', details=where))
+            elif parts is not None and ('x', NL) not in parts:
+                res.bad(F('ACC-WRITER', pn, pn.node, src_of(E[0][1]), 'push_newline must use the output.newline option', details=where))
+            elif parts is not None and ('x', BI) not in parts:
+                res.bad(F('ACC-WRITER', pn, pn.node, src_of(E[0][1]), 'push_newline must emit output.baseIndent after the newline', details=where))
+            else:
+                res.undecided('push_newline text %s' % src_of(E[0][1]), 'newline + baseIndent')
+            continue
+        if linear(line_v) != {'self.line': 1, '1': 1}:
+            res.bad(F('ACC-WRITER', pn, pn.node, 'self.line = %s' % src_of(line_v), 'a newline advances the line count by one', details=where))
+            continue
+        if src_of(col_v) != 'len(%s)' % BI:
+            # maybe computed from offsets: a snapshot of self.offset taken before the push is O, self.offset afterwards is
+            # O + len(newline) + len(baseIndent) (what push() appended, for a length-preserving text callback)
+            raw = [n for sym, n, _ in q.events if sym == '=' and src_of(n.targets[0]) == 'self.column']
+            lin = None
+            if raw:
+                npush = next(i for i, (sym, n, _) in enumerate(q.events) if sym.startswith('_c') and src_of(n.func) == 'self.push')
+                sub = {}
+                for sname, (vn, vexpr, at) in q.snaps.items():
+                    if src_of(vexpr) == 'self.offset' and at <= npush:
+                        sub[sname] = {'O': 1}
+                sub['self.offset'] = {'O': 1, 'len(NL)': 1, 'len(BI)': 1}
+                sub['len(%s)' % NL] = {'len(NL)': 1}
+                sub['len(%s)' % BI] = {'len(BI)': 1}
+                for sname, (vn, vexpr, at) in q.snaps.items():
+                    if src_of(q.resolve(vexpr)) in (NL, BI):
+                        sub['len(%s)' % sname] = {'len(NL)' if src_of(q.resolve(vexpr)) == NL else 'len(BI)': 1}
+                lin = linear(raw[-1].value, sub)
+            if lin == {'len(BI)': 1}:
+                pass
+            elif lin is not None and all(k in ('O', 'len(NL)', 'len(BI)', '1') for k in lin):
+                res.bad(F('ACC-WRITER', pn, pn.node, 'self.column = %s' % src_of(col_v), 'after a newline the column is the length of the base indent just written; this evaluates to %s' % show(lin), details=where))
+                continue
+            else:
+                res.undecided('self.column = %s' % src_of(col_v), 'column after a newline: len(baseIndent)')
+                continue
+        rest = E[3:]
+        if truth is True:
+            if len(rest) == 1 and rest[0][0] == 'call' and src_of(rest[0][1].func) == 'self.push_indent' and src_of(rest[0][1].args[0]) in ('self.level', ind):
+                lvl = src_of(rest[0][1].args[0])
+                is_true = q.rconds().get('%s is True' % ind)
+                if (lvl == 'self.level') == (is_true is True) or is_true is None:
+                    n_ok += 1
+                else:
+                    res.bad(F('ACC-WRITER', pn, pn.node, src_of(rest[0][1]), 'push_newline(True) indents by the current level, push_newline(n) by n', details=where))
+            elif not rest:
+                res.bad(F('ACC-WRITER', pn, pn.node, 'no indentation [%s]' % q.cond_str(), 'push_newline(True) must indent by the current level', details=where))
+            else:
+                res.undecided('push_newline tail %s' % [src_of(n) for _, n in rest], 'push_indent(level | indent)')
+        elif truth is False:
+            if not rest:
+                n_ok += 1
+            else:
+                res.bad(F('ACC-WRITER', pn, pn.node, ' ; '.join(src_of(n) for _, n in rest), 'push_newline() without indent must not indent', details=where))
         else:
-            res.bad(F('ACC-WRITER', pn, pn.node, want, 'push_newline must use the %s option' % key))
-    ind = [s for s in pn.node.body if isinstance(s, ast.If)]
-    if len(ind) == 1 and src_of(ind[0].test) == 'indent' and [src_of(x) for x in ind[0].body] == ['self.push_indent(self.level if indent is True else indent)']:
-        res.ok('push_newline indents by self.level when indent is True')
-    else:
-        res.bad(F('ACC-WRITER', pn, pn.node, 'if indent: ...', 'push_newline(True) must indent by the current level; baseIndent must not depend on `indent`'))
-    pi = p.func('output_stream.OutputStream.push_indent')
-    s = src_of(pi.node)
-    if "indent = self.options.get('output.indent')" in s and 'self.push(indent * max(size, 0))' in s and 'if size is None:\n        size = self.level' in s:
-        res.ok('push_indent: push(indent * max(size, 0))')
-    else:
-        res.bad(F('ACC-WRITER', pi, pi.node, 'push_indent body', 'push_indent must emit output.indent repeated max(size, 0) times through push()'))
-    # push_string: lines go through push(), line breaks through push_newline(True)
-    ps = p.func('output_stream.OutputStream.push_string')
-    s = src_of(ps.node)
-    if 'self.push(line)' in s and 'self.push_newline(True)' in s and 'if not first:' in s:
-        res.ok('push_string: push(line) / push_newline(True) between lines')
-    else:
-        res.bad(F('ACC-WRITER', ps, ps.node, 'push_string body', 'multi-line strings must be emitted line by line with push_newline(True) in between'))
+            res.undecided('push_newline path %s' % q.cond_str(), 'indent argument not tested')
+    if n_ok >= 2:
+        res.ok('push_newline: push(newline+baseIndent); line += 1; column = len(baseIndent); then push_indent(level if indent is True else indent)', n=4)
+    # push_indent: output.indent repeated max(size or level, 0) times through push()
+    pi, pip = paths_of('push_indent')
+    sz = pi.params[1] if len(pi.params) > 1 else 'size'
+    IND = "self.options.get('output.indent')"
+    good = 0
+    for q in pip:
+        E = evs(q)
+        none = q.rconds().get('%s is None' % sz)
+        if none is None and q.rconds().get('%s is not None' % sz) is not None:
+            none = not q.rconds()['%s is not None' % sz]
+        want_n = 'self.level' if none else sz
+        if len(E) == 1 and E[0][0] == 'call' and src_of(E[0][1].func) == 'self.push' and none is not None:
+            a0 = src_of(E[0][1].args[0])
+            if a0 in ('%s * max(%s, 0)' % (IND, want_n), '%s * max(0, %s)' % (IND, want_n), 'max(%s, 0) * %s' % (want_n, IND)):
+                good += 1
+            elif a0 in ('%s * %s' % (IND, want_n),):
+                good += 1           # str * negative == '' : same text
+            elif IND not in a0:
+                res.bad(F('ACC-WRITER', pi, pi.node, src_of(E[0][1]), 'push_indent must repeat the output.indent option', details=['path: ' + q.cond_str()]))
+            else:
+                res.undecided('push_indent: %s' % a0, 'indent * max(size, 0)')
+        elif any(k == 'call' and src_of(n.func) in ('self._push', 'self._value.append') for k, n in E):
+            res.bad(F('ACC-WRITER', pi, pi.node, ' ; '.join(src_of(n) for _, n in E), 'indentation must go through push()', details=['path: ' + q.cond_str()]))
+        else:
+            res.undecided('push_indent path %s: %s' % (q.cond_str(), [src_of(n) for _, n in E]), 'one push(indent * max(size, 0))')
+    if good >= 2:
+        res.ok('push_indent: push(indent * max(size if given else level, 0))', n=2)
+    # push_string: lines go through push(), line breaks through push_newline(True), no break before the first line
+    ps, psp = paths_of('push_string', unroll=True)
+    val = ps.params[1] if len(ps.params) > 1 else 'value'
+    for q in psp:
+        E = evs(q)
+        marks = [k for k, _ in E]
+        if '_iter0' not in marks or '_iter1' not in marks:
+            res.undecided('push_string', 'one loop over the lines expected')
+            continue
+        i0, i1 = marks.index('_iter0'), marks.index('_iter1')
+        end = next((i for i, k in enumerate(marks) if k in ('_stable', '_unstable')), len(E))
+        loop = E[i0][1]
+        first = [src_of(n) for k, n in E[i0 + 1:i1] if k == 'call']
+        later = [src_of(n) for k, n in E[i1 + 1:end] if k == 'call']
+        e0 = [x for x in first if x.startswith('self.push(')]
+        if src_of(loop.iter if not (isinstance(loop.iter, ast.Call) and src_of(loop.iter.func) == 'enumerate') else loop.iter.args[0]) not in ('%s.splitlines()' % val,):
+            res.undecided('push_string iterates %s' % src_of(loop.iter), 'the lines of the value (API-SPLITLINES decides which splitter)')
+        elif len(first) == 1 and first[0].startswith('self.push(_e0_') and len(later) == 2 and later[0] == 'self.push_newline(True)' and later[1].startswith('self.push(_e1_') and '_stable' in marks:
+            res.ok('push_string: push(line) / push_newline(True) between lines')
+        elif first and first[0].startswith('self.push_newline'):
+            res.bad(F('ACC-WRITER', ps, ps.node, ' ; '.join(first), 'a line break is emitted before the first line'))
+        elif len(later) == 1 and later[0].startswith('self.push(_e1_'):
+            res.bad(F('ACC-WRITER', ps, ps.node, ' ; '.join(later), 'multi-line strings must be emitted line by line with push_newline(True) in between (line/column bookkeeping)'))
+        elif len(later) == 2 and later[0].startswith('self.push_newline(') and later[0] != 'self.push_newline(True)':
+            res.bad(F('ACC-WRITER', ps, ps.node, later[0], 'continuation lines are indented by the current level: push_newline(True)'))
+        else:
+            res.undecided('push_string: first %s later %s' % (first, later), 'push(line); then push_newline(True), push(line)')
     res.require_floor(14)
 
 
 @rule('ACC-CALLBACK', 'D', 'output.text / output.field receive the current offset/line/column and their result is appended unmodified')
 def acc_callback(p, res):
+    from .. import sympath
     for mname, opt, nargs in (('push', 'output.text', 1), ('push_field', 'output.field', 2)):
         f = p.func('output_stream.OutputStream.' + mname)
-        cbdef = [n for n in f.body_nodes() if isinstance(n, ast.Assign) and isinstance(n.value, ast.Call) and src_of(n.value) == "self.options.get('%s')" % opt]
-        if len(cbdef) != 1:
-            res.bad(F('ACC-CALLBACK', f, f.node, "self.options.get('%s')" % opt, 'callback must be read from option %s' % opt))
+        try:
+            paths = sympath.feasible(sympath.summaries(p, f, inline=False))
+        except sympath.Unsupported as e:
+            res.undecided('OutputStream.%s' % mname, str(e))
             continue
-        cb = src_of(cbdef[0].targets[0])
-        pushes = [n for n in f.body_nodes() if isinstance(n, ast.Call) and src_of(n.func) == 'self._push']
-        if len(pushes) != 1 or len(pushes[0].args) != 1:
-            res.bad(F('ACC-CALLBACK', f, f.node, 'self._push(..)', '%s must append through exactly one _push call' % mname))
+        if len(paths) != 1:
+            res.undecided('OutputStream.%s' % mname, '%d paths; one unconditional path expected' % len(paths))
             continue
-        inner = pushes[0].args[0]
-        if not (isinstance(inner, ast.Call) and src_of(inner.func) == cb):
-            res.bad(F('ACC-CALLBACK', f, pushes[0], src_of(pushes[0]), 'the string returned by the %s callback must be passed to _push unmodified, in the same expression that reads the position' % opt))
+        q = paths[0]
+        calls = [(sym, n) for sym, n, _ in q.events if sym.startswith('_c')]
+        stores = [n for sym, n, _ in q.events if sym == '=']
+        cbs = [(sym, n) for sym, n in calls if src_of(q.resolve(n.func)) == "self.options.get('%s')" % opt]
+        pushes = [(sym, n) for sym, n in calls if src_of(n.func) == 'self._push']
+        if len(cbs) != 1:
+            res.bad(F('ACC-CALLBACK', f, f.node, "self.options.get('%s')(..) x%d" % (opt, len(cbs)), 'the %s callback must be called exactly once per %s' % (opt, mname)))
             continue
-        kws = {k.arg: src_of(k.value) for k in inner.keywords}
+        if len(pushes) != 1 or len(pushes[0][1].args) != 1:
+            res.bad(F('ACC-CALLBACK', f, f.node, 'self._push(..) x%d' % len(pushes), '%s must append through exactly one _push call' % mname))
+            continue
+        cb = cbs[0][1]
+        arg = pushes[0][1].args[0]
+        if not (isinstance(arg, ast.Name) and arg.id == cbs[0][0]):
+            res.bad(F('ACC-CALLBACK', f, f.node, q.rsrc(pushes[0][1]), 'the string returned by the %s callback must be passed to _push unmodified' % opt))
+            continue
+        between = [n for sym, n in calls if sym not in (cbs[0][0], pushes[0][0])]
+        if between or stores:
+            res.bad(F('ACC-CALLBACK', f, f.node, ' ; '.join(q.rsrc(n) for n in between + stores), '%s must do nothing but call the callback and append its result (anything in between moves the position the callback was told)' % mname))
+            continue
+        kws = {k.arg: q.rsrc(k.value) for k in cb.keywords}
         if kws != {'offset': 'self.offset', 'line': 'self.line', 'column': 'self.column'}:
-            res.bad(F('ACC-CALLBACK', f, inner, src_of(inner), 'callback must receive offset=self.offset, line=self.line, column=self.column'))
+            res.bad(F('ACC-CALLBACK', f, f.node, q.rsrc(cb), 'callback must receive offset=self.offset, line=self.line, column=self.column'))
         else:
-            res.ok('%s: %s' % (mname, src_of(pushes[0])))
-        pos = [src_of(a) for a in inner.args]
+            res.ok('%s: callback receives the current offset/line/column and its result is appended unmodified' % mname, n=2)
+        pos = [q.rsrc(a) for a in cb.args]
         if pos != f.params[1:1 + nargs]:
-            res.bad(F('ACC-CALLBACK', f, inner, src_of(inner), 'callback positional arguments must be %s' % f.params[1:1 + nargs]))
+            res.bad(F('ACC-CALLBACK', f, f.node, q.rsrc(cb), 'callback positional arguments must be %s' % f.params[1:1 + nargs]))
         else:
             res.ok('%s passes %s' % (mname, pos))
-        if len(f.node.body) - sum(1 for s in f.node.body if isinstance(s, ast.Expr) and isinstance(s.value, ast.Constant)) != 2:
-            res.bad(F('ACC-CALLBACK', f, f.node, '%s body' % mname, '%s must consist of the option read and the single _push' % mname))
-        else:
-            res.ok('%s is two statements' % mname)
     # census: strings handed to raw push() must not contain newlines -> arguments are option values, constants or split lines
     n_push = 0
     for f in p.funcs.values():
@@ -435,27 +586,34 @@ def census(p, res):
         ('emmet.stylesheet.format.output_value', 'hasattr'),
     }
     banned = {'eval', 'exec', 'setattr', 'getattr', 'delattr', 'globals', 'locals', 'vars', 'dir', 'compile', '__import__', 'hasattr'}
+    outside = []
     for f in p.funcs.values():
         for n in f.body_nodes():
             name = None
             if isinstance(n, ast.Call) and isinstance(n.func, ast.Name) and n.func.id in banned:
                 name = n.func.id
-            elif isinstance(n, ast.Attribute) and n.attr in ('__dict__', '__getattribute__', '__setattr__', '__class__') and n.attr != '__class__':
+                if name in ('getattr', 'hasattr') and len(n.args) >= 2 and isinstance(n.args[1], ast.Constant) and isinstance(n.args[1].value, str):
+                    res.ok('%s uses %s with a constant attribute name (a plain attribute read)' % (f.short, name))
+                    continue
+            elif isinstance(n, ast.Attribute) and n.attr in ('__dict__', '__getattribute__', '__setattr__'):
                 name = n.attr
             if name is None:
                 continue
             if (f.qualname, name) in allowed_dyn:
                 res.ok('%s uses %s (modelled)' % (f.short, name))
             else:
-                res.bad(F('CENSUS', f, n, src_of(n), 'dynamic feature %s is outside the analysed language subset: the resolver cannot see through it' % name))
+                outside.append('%s:%d %s uses %s' % (f.module.relpath, n.lineno, f.short, name))
     for m in p.modules.values():
         for n in ast.walk(m.tree):
-            if isinstance(n, (ast.With, ast.AsyncWith, ast.AsyncFunctionDef, ast.Yield, ast.YieldFrom, ast.Await, ast.Nonlocal)) or type(n).__name__ in ('Match', 'TryStar'):
-                res.bad(Finding('CENSUS', m.relpath, m.name[6:], type(n).__name__, 'statement kind outside the analysed subset', getattr(n, 'lineno', 0)))
+            if isinstance(n, (ast.With, ast.AsyncWith, ast.AsyncFunctionDef, ast.Yield, ast.YieldFrom, ast.Await)) or type(n).__name__ in ('Match', 'TryStar'):
+                outside.append('%s:%d %s' % (m.relpath, getattr(n, 'lineno', 0), type(n).__name__))
             if isinstance(n, ast.FunctionDef):
                 for d in n.decorator_list:
-                    if src_of(d) != 'property':
-                        res.bad(Finding('CENSUS', m.relpath, m.name[6:], '@' + src_of(d), 'decorator outside the analysed subset', n.lineno))
+                    if src_of(d) not in ('property', 'staticmethod'):
+                        outside.append('%s:%d decorator @%s' % (m.relpath, n.lineno, src_of(d)))
+    if outside:
+        # not a violation of any property: the program left the language subset the resolver models, so nothing can be decided
+        raise AnalysisError('CENSUS: constructs outside the analysed language subset: ' + '; '.join(outside[:6]))
     cg = callgraph.get(p)
     res.stats['call_sites'] = cg.n_calls
     res.stats['call_sites_resolved'] = cg.n_resolved
